@@ -35,7 +35,10 @@ def units(tier, seed=0):
     for name in blk:
         for arch in ([7] if tier == 'quick' else [6, 7]):
             for uname, opts in isa_blk.units(name, arch, 'std', labels=('LO', 'HI', 'LO8', 'HI8', 'SYM')):
-                us.append(UnitSpec('range/' + uname, 'vf.step', 'mk_step', opts, max_seconds=2400, weight=3))
+                from vf import c03
+                for suf, o2 in c03.split_window(uname.rsplit('/', 1)[1], opts):  # wide windows: one unit per case
+                    us.append(UnitSpec('range/' + uname + suf, 'vf.step', 'mk_step', o2, max_seconds=2400, weight=3,
+                                       allow_vacuous=bool(suf)))
     fams = set(ISA[r].family for r in only)
     if tier == 'quick':
         us += famcheck.family_units(fams, [7], tables, only=only, tag='/range')
